@@ -31,7 +31,6 @@ from unified_planning.exceptions import (
     UPUsageError,
     UPConflictingEffectsException,
     UPInvalidActionError,
-    UPUnreachableCodeError,
     UPProblemDefinitionError,
     UPStateMissingFluentError,
 )
@@ -187,13 +186,13 @@ class UPSequentialSimulator(Engine, SequentialSimulatorMixin):
         """
         assert isinstance(self._problem, Problem), "supported_kind not respected"
         if self._initial_state is None:
-            self._initial_state = UPState(
+            initial_state = UPState(
                 self._problem.explicit_initial_values, self._problem
             )
             for si in self._state_invariants:
                 try:
                     is_satisfied = self._se.evaluate(
-                        si, self._initial_state
+                        si, initial_state
                     ).bool_constant_value()
                 except UPStateMissingFluentError:
                     is_satisfied = False
@@ -299,6 +298,36 @@ class UPSequentialSimulator(Engine, SequentialSimulatorMixin):
         if grounded_action is None:
             raise UPInvalidActionError("Apply_unsafe got an inapplicable action.")
         assert isinstance(action, up.model.InstantaneousAction)
+        updated_values = self._evaluate_effects(grounded_action, state)
+        new_state = state.make_child(updated_values)
+        for si in self._state_invariants:
+            if not self._se.evaluate(si, new_state).bool_constant_value():
+                raise UPInvalidActionError(
+                    "The given action is not applicable because it violates state invariants.",
+                    "Bounded numeric types are checked as state invariants.",
+                )
+        return new_state
+
+    def _evaluate_effects(
+        self,
+        grounded_action: "up.model.InstantaneousAction",
+        state: "up.model.State",
+    ) -> Dict["up.model.FNode", "up.model.FNode"]:
+        """
+        Evaluates all the effects of the given grounded action in the given state and
+        returns the map from the fluents modified by the action to their new values.
+
+        This is the only place where the effects of an action are evaluated, so that
+        `apply_unsafe` and the `full_check` of `get_unsatisfied_conditions` can not disagree.
+
+        :param grounded_action: The grounded action whose effects are evaluated.
+        :param state: The state in which the effects are evaluated.
+        :return: The mapping from the modified fluents to their new values.
+        :raises UPConflictingEffectsException: If to the same fluent are assigned 2 different
+            values.
+        :raises UPStateMissingFluentError: If an expression involves a fluent with an
+            undefined value in the state.
+        """
         updated_values: Dict["up.model.FNode", "up.model.FNode"] = {}
         assigned_fluent: Set["up.model.FNode"] = set()
         em = self._problem.environment.expression_manager
@@ -321,15 +350,7 @@ class UPSequentialSimulator(Engine, SequentialSimulatorMixin):
                 if fluent is not None:
                     assert value is not None
                     updated_values[fluent] = value
-
-        new_state = state.make_child(updated_values)
-        for si in self._state_invariants:
-            if not self._se.evaluate(si, new_state).bool_constant_value():
-                raise UPInvalidActionError(
-                    "The given action is not applicable because it violates state invariants.",
-                    "Bounded numeric types are checked as state invariants.",
-                )
-        return new_state
+        return updated_values
 
     def _evaluate_effect(
         self,
@@ -338,8 +359,6 @@ class UPSequentialSimulator(Engine, SequentialSimulatorMixin):
         updated_values: Dict["up.model.FNode", "up.model.FNode"],
         assigned_fluent: Set["up.model.FNode"],
         em: ExpressionManager,
-        evaluated_fluent: Optional[FNode] = None,
-        evaluated_condition: Optional[bool] = None,
     ) -> Tuple[Optional[FNode], Optional[FNode]]:
         """
         Evaluates the given effect in the state, and returns the fluent affected
@@ -355,10 +374,6 @@ class UPSequentialSimulator(Engine, SequentialSimulatorMixin):
         :param assigned_fluent: The set containing all the fluents already assigned in the
             event containing this effect.
         :param em: The current environment expression manager.
-        :param evaluated_fluent: In case the fluent is already evaluated outside, pass it to
-            avoid doing the same thing again.
-        :param evaluated_condition: In case the condition is already evaluated outside, pass it to
-            avoid doing the same thing again.
         :return: The Tuple[Fluent, Value], where the fluent is the one affected by the given
             effect and value is the new value assigned to the fluent.
         :raises UPConflictingEffectsException: If to the same fluent are assigned 2 different
@@ -367,15 +382,8 @@ class UPSequentialSimulator(Engine, SequentialSimulatorMixin):
             undefined value in the state.
         """
         evaluate: Callable[[FNode], FNode] = lambda exp: self._se.evaluate(exp, state)
-        if evaluated_fluent is not None:
-            fluent = evaluated_fluent
-        else:
-            fluent = effect.fluent.fluent()(*(map(evaluate, effect.fluent.args)))
-        if evaluated_condition is None:
-            evaluated_condition = (
-                not effect.is_conditional() or evaluate(effect.condition).is_true()
-            )
-        if evaluated_condition:
+        fluent = effect.fluent.fluent()(*(map(evaluate, effect.fluent.args)))
+        if not effect.is_conditional() or evaluate(effect.condition).is_true():
             new_value = evaluate(effect.value)
             if effect.is_assignment():
                 old_value = updated_values.get(fluent, None)
@@ -493,99 +501,18 @@ class UPSequentialSimulator(Engine, SequentialSimulatorMixin):
                 if early_termination:
                     return unsatisfied_conditions, reason
 
-        updated_values: Dict["up.model.FNode", "up.model.FNode"] = {}
-        assigned_fluent: Set["up.model.FNode"] = set()
-        em = self._problem.environment.expression_manager
-
         if full_check:
-            # Add simulated effects to updated_values and assigned_fluent before other effects
-            sim_eff = g_action.simulated_effect
-            if sim_eff is not None:
-                for f, v in zip(
-                    sim_eff.fluents,
-                    sim_eff.function(self._problem, state, {}),
-                ):
-                    updated_values[f] = v
-                    assigned_fluent.add(f)
-
-            for effect in g_action.conditional_effects:
-                for e in effect.expand_effect(
-                    cast(up.model.mixins.ObjectsSetMixin, self._problem)
-                ):
-                    if not e.fluent.type.is_bool_type():
-                        evaluated_condition = evaluate(
-                            e.condition
-                        ).bool_constant_value()
-                        if evaluated_condition:
-                            try:
-                                fluent, value = self._evaluate_effect(
-                                    e,
-                                    state,
-                                    updated_values,
-                                    assigned_fluent,
-                                    em,
-                                    evaluated_condition=evaluated_condition,
-                                )
-                                assert fluent is not None and value is not None
-                                updated_values[fluent] = value
-                            except UPConflictingEffectsException:
-                                reason = InapplicabilityReasons.CONFLICTING_EFFECTS
-                                if early_termination:
-                                    return unsatisfied_conditions, reason
-
-            if updated_values:
-                for effect in g_action.unconditional_effects:
-                    for e in effect.expand_effect(
-                        cast(up.model.mixins.ObjectsSetMixin, self._problem)
-                    ):
-                        ev_fluent = e.fluent.fluent()(*(map(evaluate, e.fluent.args)))
-                        values = updated_values.get(ev_fluent, None)
-                        if values is not None:
-                            try:
-                                fluent, value = self._evaluate_effect(
-                                    e,
-                                    state,
-                                    updated_values,
-                                    assigned_fluent,
-                                    em,
-                                    evaluated_fluent=ev_fluent,
-                                    evaluated_condition=True,
-                                )
-                                assert fluent is not None and value is not None
-                                updated_values[fluent] = value
-                            except UPConflictingEffectsException:
-                                reason = InapplicabilityReasons.CONFLICTING_EFFECTS
-                                if early_termination:
-                                    return unsatisfied_conditions, reason
-
-            for effect in g_action.effects:
-                for e in effect.expand_effect(
-                    cast(up.model.mixins.ObjectsSetMixin, self._problem)
-                ):
-                    if e.fluent.fluent() in self._fluents_in_state_invariants:
-                        ev_fluent = e.fluent.fluent()(*(map(evaluate, e.fluent.args)))
-                        if ev_fluent in self._fluent_exps_in_state_invariants:
-                            if ev_fluent not in updated_values:
-                                try:
-                                    fluent, value = self._evaluate_effect(
-                                        e,
-                                        state,
-                                        updated_values,
-                                        assigned_fluent,
-                                        em,
-                                        evaluated_fluent=ev_fluent,
-                                    )
-                                    assert fluent is not None and value is not None
-                                    updated_values[fluent] = value
-                                except UPConflictingEffectsException:
-                                    raise UPUnreachableCodeError(
-                                        "Conflicting effects should be caught above"
-                                    )
-
             if not isinstance(state, up.model.UPState):
                 raise UPUsageError(
                     f"The UPSequentialSimulator uses the UPState but {type(state).__name__} is given."
                 )
+            # The effects are evaluated exactly as apply_unsafe does
+            try:
+                updated_values = self._evaluate_effects(g_action, state)
+            except UPConflictingEffectsException:
+                # no successor state exists, so the state invariants can not be checked
+                reason = InapplicabilityReasons.CONFLICTING_EFFECTS
+                return unsatisfied_conditions, reason
             new_partial_state = state.make_child(updated_values)
             for si in self._state_invariants:
                 if not self._se.evaluate(si, new_partial_state).bool_constant_value():
